@@ -482,6 +482,24 @@ fn key_sweep(len: usize, sh: &util::Shard) -> Report {
             keys.push(w.to_string());
         }
     }
+    if len == 1 && sh.index == 0 {
+        // structured number look-alikes: sign x integer part x fraction x exponent
+        for sign in ["", "-", "+"] {
+            for int in ["", "0", "1", "12", "007"] {
+                for frac in ["", ".", ".5", ".50", ".0"] {
+                    for exp in ["", "e3", "e-3", "e+3", "E3", "E-12", "e", "e-", "e3x"] {
+                        let k = format!("{sign}{int}{frac}{exp}");
+                        if !k.is_empty() {
+                            keys.push(k);
+                        }
+                    }
+                }
+            }
+        }
+        for w in ["0x", "0xg", "0X1F", "0o", "0o8", "0O7", "0b101", "1_000", "1__0", "-.inf", "+.inf", ".Inf", ".INF", ".NAN", ".NaN", "-.nan", "12:30:45", "1.2.3", "--1", "-+1", "1e3e3", "1..5", "0.", "-0", "+0", "00", "-00.5"] {
+            keys.push(w.to_string());
+        }
+    }
     for chunk in keys.chunks(50) {
         let items: Vec<String> = chunk.iter().map(|k| escape_str(k)).collect();
         let src = format!("[[std.manifestYamlDoc({{[k]: 1}}, quote_keys=false), std.parseYaml(std.manifestYamlDoc({{[k]: 1}}, quote_keys=false)) == {{[k]: 1}}, std.manifestTomlEx({{[k]: 1}}, \"\")] for k in [{}]]", items.join(", "));
